@@ -92,6 +92,21 @@ def r_floatpat(fn, trace):
     return fn[:m.start()] + out + fn[cb + 1:]
 
 
+def annotate_ifnz(f, trace):
+    """Context::if_nonzero_else: remember the arena after each inner constructor call and name the tail value (R-tail)"""
+    seq = [('        let lhs = self.and(condition, a)?;\n', 4), ('        let n_condition = self.not(condition)?;\n', 5), ('        let rhs = self.and(n_condition, b)?;\n', 6)]
+    for line, k in seq:
+        if f.count(line) != 1:
+            raise ExtractError('Context::if_nonzero_else changed: %r' % line.strip())
+        f = f.replace(line, line + '        let ghost o%d_ = self.ops@;\n        proof { lemma_sem_ext_all(o%d_, o%d_); lemma_ext_trans(o0_, o%d_, o%d_); }\n' % (k, k - 1, k, k - 1, k))
+    old = '        self.or(lhs, rhs)\n'
+    if f.count(old) != 1:
+        raise ExtractError('Context::if_nonzero_else tail changed')
+    f = f.replace(old, '        let r_ = self.or(lhs, rhs);\n        /*@e:sel*/\n        r_\n')
+    trace.fire('R-tail')
+    return f
+
+
 TAILS = {
     'add': [('            self.mul(a, two)\n', 'x')],
     'mul': [('            self.square(a)\n', 'x')],
@@ -207,6 +222,8 @@ def build(repo, trace):
             trace.fire('R-letchain', n)
         f = annotate_operands(f)
         f = name_tails(name, f, trace)
+        if name == 'if_nonzero_else':
+            f = annotate_ifnz(f, trace)
         fns.append(f)
         trace.items.append((MOD_RS, 'Context::' + name))
     body = 'impl Context {\n' + '\n\n'.join(fns) + '\n}\n'
